@@ -151,7 +151,7 @@ class TriggerContext:
         :return: the result of the expression, or the exception that was raised.
         """
         try:
-            return eval(expression, None, self.__frame.f_locals)
+            return eval(expression, getattr(self.__frame, "f_globals", None), self.__frame.f_locals)
         except BaseException as e:
             return e
 
